@@ -448,6 +448,14 @@ pub fn examine(case: &Case, origin: &str, seed: u64, report: &mut Report) -> boo
                     witness(Json::obj().set("first", a.kind).set("second", b.kind).set("name", a.name.as_str()).set("scope", a.scope.as_str()).set("naming", which)),
                 );
             }
+            // every call names a function that is visible from the call site
+            for (callee, caller) in decls::invisible_calls(tree) {
+                report.violation(
+                    "call-to-invisible-function",
+                    &format!("the emitted {} calls `{}` from {}, but no function of that name is visible there (one exists in another scope)", t.name(), callee, caller),
+                    witness(Json::obj().set("callee", callee.as_str()).set("caller", caller.as_str()).set("naming", which)),
+                );
+            }
             let names_now: Vec<&String> = if which == "s0" { p.idents.iter().map(|i| &i.name).collect() } else { case.s1.names.iter().collect() };
             // a name generated for a global-scope entity must not be the spelling of a user's local or parameter: both would be
             // visible in that function (source names are unique per entity in these programs, so any such pair is introduced).
@@ -606,6 +614,22 @@ fn run(ctx: &Ctx) -> Report {
 
 /// Vulkan with buffer addresses: every `g_inlineDescriptorN.<member>` the exporter writes names a member it declared
 fn resource_names_case(text: &str, origin: &str, report: &mut Report) {
+    // entry point wrappers, helpers and resources: every call in the emitted trees names a function visible at the call site
+    for t in [Tgt::Dx, Tgt::Msl] {
+        let out = rs::compile_text(text, &Opts::new(t, Mode::All));
+        let Outcome::Ok(pipes) = &out else { continue };
+        for pipe in pipes {
+            let Some(tree) = &pipe.tree else { continue };
+            report.evaluations += 1;
+            for (callee, caller) in decls::invisible_calls(tree) {
+                report.violation(
+                    "call-to-invisible-function",
+                    &format!("the emitted {} calls `{}` from {}, but no function of that name is visible there ({})", t.name(), callee, caller, origin),
+                    Json::obj().set("origin", origin).set("resource_program", text).set("target", t.name()).set("callee", callee.as_str()).set("caller", caller.as_str()),
+                );
+            }
+        }
+    }
     for mode in [Mode::NoPipeline, Mode::All] {
         let out = rs::compile_text(text, &Opts::new(Tgt::VkBa, mode.clone()));
         let Outcome::Ok(pipes) = &out else {
